@@ -30,6 +30,8 @@ func C07(r *core.Report) {
 	c07WindowShape(r)
 	c07LimitCountsWholeResult(r)
 	c07OptionPointersDistinct(r)
+	rangeSelectionInclusive(r, "C07.R8")
+	r.Floor("C07.R8", 1)
 	r.Floor("C07.R1", 3)
 	r.Floor("C07.R2", 4)
 	r.Floor("C07.R3", 2)
@@ -772,5 +774,81 @@ func c07OptionPointersDistinct(r *core.Report) {
 	}
 	if n == 0 {
 		r.OK(rule, f.Key+"#no-address-of-locals", posP(r, f.Pos()), "no optional field points at a local variable")
+	}
+}
+
+// rangeSelectionInclusive: the epochs kept for a slot range [startSlot, endSlot] (both ends belong to the range - the
+// streaming path asks the index for slots before endSlot+1) are selected by comparisons that admit equality with
+// quantities derived from either bound. A strict comparison drops the epoch whose first (or last) slot is exactly the
+// bound, and with it every transaction of that slot.
+func rangeSelectionInclusive(r *core.Report, rule string) {
+	p := r.Prog
+	f := r.Anchor(rule, "main.(*MultiEpoch).getGsfaReadersInEpochDescendingOrderForSlotRange")
+	if f == nil {
+		return
+	}
+	info := f.Pkg.TypesInfo
+	g := p.Graph(f)
+	start, end := f.ParamByName("startSlot"), f.ParamByName("endSlot")
+	if start == nil || end == nil {
+		r.Undecided(rule, f.Key+"#range-params", posP(r, f.Pos()), "parameters startSlot / endSlot not found")
+		return
+	}
+	ts, te := taintFrom(f, start), taintFrom(f, end)
+	ts[start], te[end] = true, true
+	// the append that keeps an epoch
+	n := 0
+	for _, node := range stmtNodes(g) {
+		as, ok := node.Ast.(*ast.AssignStmt)
+		if !ok || len(as.Rhs) != 1 {
+			continue
+		}
+		c, ok := core.Unparen(as.Rhs[0]).(*ast.CallExpr)
+		if !ok || core.BuiltinName(info, c) != "append" || len(c.Args) != 2 {
+			continue
+		}
+		if !strings.Contains(core.NamedTypeName(info.TypeOf(c.Args[1])), "Epoch") {
+			continue
+		}
+		n++
+		nb := 0
+		bad := ""
+		for _, fc := range g.FactsAt(node) {
+			be, ok := core.Unparen(fc.Expr).(*ast.BinaryExpr)
+			if !ok || fc.Tag != nil {
+				continue
+			}
+			var boundSide string
+			for side, e := range map[string]ast.Expr{"X": be.X, "Y": be.Y} {
+				if mentionsAny(info, e, ts, false) || mentionsAny(info, e, te, false) {
+					boundSide = side
+				}
+			}
+			if boundSide == "" {
+				continue
+			}
+			op := be.Op
+			if !fc.Truth {
+				op = map[token.Token]token.Token{token.LSS: token.GEQ, token.GEQ: token.LSS, token.GTR: token.LEQ, token.LEQ: token.GTR, token.EQL: token.NEQ, token.NEQ: token.EQL}[be.Op]
+			}
+			switch op {
+			case token.LEQ, token.GEQ:
+				nb++
+			case token.LSS, token.GTR:
+				bad = core.ExprStr(fc.Expr)
+			}
+		}
+		k := fmt.Sprintf("%s#selection-includes-both-bounds@%d", f.Key, n)
+		switch {
+		case bad != "":
+			r.Violation(rule, k, pos(r, node.Ast), "an epoch is kept only under the strict comparison ["+bad+"] with a bound of the range: the epoch whose boundary slot equals that bound is dropped and the transactions of that slot are missing from the answer")
+		case nb >= 2:
+			r.OK(rule, k, pos(r, node.Ast), "both bounds of the range are compared inclusively")
+		default:
+			r.Undecided(rule, k, pos(r, node.Ast), "the comparisons that select an epoch for the slot range were not recognised")
+		}
+	}
+	if n == 0 {
+		r.Undecided(rule, f.Key+"#selection", posP(r, f.Pos()), "no append of a selected epoch found")
 	}
 }
